@@ -172,3 +172,13 @@ package plumbing
 //gvc:  ensures read: err == nil ==> r.#pos == old(r.#pos) + n && r.#pos <= r.#n && (n == 20 || n == 32)
 //gvc:  ensures sha1: err == nil && len(s.format) == 0 ==> n == 20
 //gvc:end
+
+// EncodedObject.Reader: a fresh reader at the start of the object's content
+// (#content; the same bytes on every call). Trusted interface contract.
+//gvc:ghost EncodedObject.content bytes
+//gvc:func EncodedObject.Reader
+//gvc:  trusted
+//gvc:  params o
+//gvc:  results r err
+//gvc:  ensures fresh: err == nil ==> r != nil && r.#pos == 0 && r.#data == o.#content
+//gvc:end
